@@ -155,6 +155,16 @@ def _is_pure(e: ast.expr) -> bool:
     return True
 
 
+def _negate(e: ast.expr) -> ast.expr:
+    """The complement of a test: `not x` -> x, a single comparison -> the complementary comparison, else `not (e)`."""
+    if isinstance(e, ast.UnaryOp) and isinstance(e.op, ast.Not):
+        return e.operand
+    comp: t.Dict[t.Any, t.Any] = {ast.Lt: ast.GtE, ast.LtE: ast.Gt, ast.Gt: ast.LtE, ast.GtE: ast.Lt, ast.Eq: ast.NotEq, ast.NotEq: ast.Eq, ast.Is: ast.IsNot, ast.IsNot: ast.Is, ast.In: ast.NotIn, ast.NotIn: ast.In}
+    if isinstance(e, ast.Compare) and len(e.ops) == 1 and type(e.ops[0]) in comp:
+        return ast.copy_location(ast.Compare(left=e.left, ops=[comp[type(e.ops[0])]()], comparators=list(e.comparators)), e)
+    return ast.copy_location(ast.UnaryOp(op=ast.Not(), operand=e), e)
+
+
 def _terminates(block: t.List[ast.stmt]) -> bool:
     if not block:
         return False
@@ -245,6 +255,8 @@ class Normalizer:
             self._replace_node(f, self.split_ifexp(f))
         for f in list(repo.funcs.values()):
             self._replace_node(f, self.unflag_loops(f))
+        for f in list(repo.funcs.values()):
+            self._replace_node(f, self.scan_loops(f))
         for f in list(repo.funcs.values()):
             self._replace_node(f, self.equivalent_calls(f))
         for f in list(repo.funcs.values()):
@@ -460,7 +472,62 @@ class Normalizer:
 
         new = copy.deepcopy(f.node)
         T().visit(new)
+        # N23  emptiness tests spelled with len():  len(x) > 0, len(x) != 0, len(x) >= 1, 0 < len(x)  ->  x ;
+        #      len(x) == 0, len(x) < 1, len(x) <= 0  ->  not x      (in test positions: if / while / not / and / or / assert)
+        def is_len(x: ast.expr) -> bool:
+            return isinstance(x, ast.Call) and isinstance(x.func, ast.Name) and x.func.id == "len" and len(x.args) == 1 and not x.keywords and _is_pure_path(x.args[0])
 
+        def const(x: ast.expr) -> t.Optional[int]:
+            return x.value if isinstance(x, ast.Constant) and isinstance(x.value, int) and not isinstance(x.value, bool) else None
+
+        def truthy(e: ast.expr) -> ast.expr:
+            if isinstance(e, ast.UnaryOp) and isinstance(e.op, ast.Not):
+                e.operand = truthy(e.operand)
+                return e
+            if isinstance(e, ast.BoolOp):
+                e.values = [truthy(v) for v in e.values]
+                return e
+            if isinstance(e, ast.Compare) and len(e.ops) == 1:
+                l, op, r = e.left, e.ops[0], e.comparators[0]
+                if is_len(r) and const(l) is not None:
+                    flipm: t.Dict[t.Any, t.Any] = {ast.Lt: ast.Gt, ast.LtE: ast.GtE, ast.Gt: ast.Lt, ast.GtE: ast.LtE, ast.Eq: ast.Eq, ast.NotEq: ast.NotEq}
+                    if type(op) in flipm:
+                        l, op, r = r, flipm[type(op)](), l
+                if is_len(l) and const(r) is not None:
+                    k = const(r)
+                    arg = t.cast(ast.Call, l).args[0]
+                    nonempty = (isinstance(op, ast.Gt) and k == 0) or (isinstance(op, ast.NotEq) and k == 0) or (isinstance(op, ast.GtE) and k == 1)
+                    empty = (isinstance(op, ast.Eq) and k == 0) or (isinstance(op, ast.Lt) and k == 1) or (isinstance(op, ast.LtE) and k == 0)
+                    if nonempty:
+                        hit[0] = True
+                        return ast.copy_location(arg, e)
+                    if empty:
+                        hit[0] = True
+                        return ast.copy_location(ast.UnaryOp(op=ast.Not(), operand=arg), e)
+            return e
+
+        class L(ast.NodeTransformer):
+            def visit_If(self, node: ast.If) -> ast.AST:
+                self.generic_visit(node)
+                node.test = truthy(node.test)
+                return node
+
+            def visit_While(self, node: ast.While) -> ast.AST:
+                self.generic_visit(node)
+                node.test = truthy(node.test)
+                return node
+
+            def visit_IfExp(self, node: ast.IfExp) -> ast.AST:
+                self.generic_visit(node)
+                node.test = truthy(node.test)
+                return node
+
+            def visit_Assert(self, node: ast.Assert) -> ast.AST:
+                self.generic_visit(node)
+                node.test = truthy(node.test)
+                return node
+
+        L().visit(new)
         return new if hit[0] else None
 
     def guard_form(self, f: Func) -> t.Optional[FuncNode]:
@@ -468,10 +535,7 @@ class Normalizer:
         new = copy.deepcopy(f.node)
         # N16  guard-clause form:  if c: A else: B   with A ending in raise/return/continue/break  ->  if c: A ; B
         #      (and with only B terminating:  if not c: B ; A).  Applied innermost first, so single-exit nests unfold.
-        def negate(e: ast.expr) -> ast.expr:
-            if isinstance(e, ast.UnaryOp) and isinstance(e.op, ast.Not):
-                return e.operand
-            return ast.copy_location(ast.UnaryOp(op=ast.Not(), operand=e), e)
+        negate = _negate
 
         def flatten(block: t.List[ast.stmt]) -> t.List[ast.stmt]:
             out: t.List[ast.stmt] = []
@@ -1105,6 +1169,57 @@ class Normalizer:
 
         A().visit(new)
         return new
+
+    # ------------------------------------------------------------------------------------------ N22
+    def scan_loops(self, f: Func) -> t.Optional[FuncNode]:
+        """while T: B (containing one `return E`, no break) ; R   with R ending in raise / return
+               ->   while True: if not T: R ; B[return E -> break]   ;   return E
+        (leaving the loop because T became false runs R, which never falls through; leaving it through the return
+        evaluates E in the same state the break leaves).  This is the scan-with-exhaustion-exit form of the reference tree."""
+        hit = [False]
+
+        negate = _negate
+
+        def block(stmts: t.List[ast.stmt]) -> t.List[ast.stmt]:
+            out: t.List[ast.stmt] = []
+            i = 0
+            while i < len(stmts):
+                s_ = stmts[i]
+                if not isinstance(s_, (ast.FunctionDef, ast.AsyncFunctionDef, ast.ClassDef)):
+                    for fld in ("body", "orelse", "finalbody"):
+                        blk = getattr(s_, fld, None)
+                        if isinstance(blk, list) and blk and isinstance(blk[0], ast.stmt):
+                            setattr(s_, fld, block(blk))
+                    if isinstance(s_, ast.Try):
+                        for h in s_.handlers:
+                            h.body = block(h.body)
+                rest = stmts[i + 1:]
+                if isinstance(s_, ast.While) and not s_.orelse and not (isinstance(s_.test, ast.Constant) and s_.test.value) and rest and _terminates(rest):
+                    inner = [x for b_ in s_.body for x in ast.walk(b_)]
+                    rets = [x for x in inner if isinstance(x, ast.Return)]
+                    nested_loops = [x for x in inner if isinstance(x, (ast.For, ast.While, ast.FunctionDef, ast.AsyncFunctionDef, ast.Lambda))]
+                    breaks = [x for x in inner if isinstance(x, ast.Break)]
+                    if len(rets) == 1 and not breaks and not nested_loops and rets[0].value is not None:
+                        ret = rets[0]
+
+                        class R(ast.NodeTransformer):
+                            def visit_Return(self, node: ast.Return) -> ast.AST:
+                                return ast.copy_location(ast.Break(), node)
+
+                        guard = ast.copy_location(ast.If(test=negate(s_.test), body=copy.deepcopy(rest), orelse=[]), s_)
+                        body = [guard] + [t.cast(ast.stmt, R().visit(copy.deepcopy(b_))) for b_ in s_.body]
+                        loop = ast.copy_location(ast.While(test=ast.copy_location(ast.Constant(value=True), s_.test), body=body, orelse=[]), s_)
+                        out.append(loop)
+                        out.append(ast.copy_location(ast.Return(value=copy.deepcopy(ret.value)), ret))
+                        hit[0] = True
+                        return out
+                out.append(s_)
+                i += 1
+            return out
+
+        new = copy.deepcopy(f.node)
+        new.body = block(list(new.body))
+        return new if hit[0] else None
 
     # ------------------------------------------------------------------------------------------ N19
     def unroll_tables(self, f: Func) -> t.Optional[FuncNode]:
